@@ -186,17 +186,21 @@ from vf.symx import SymInt  # noqa: E402
 def c03_masks(e):
     attrs = e.mk("attributes", 0, 0x1FFF)
     sets = e.mk("set_attributes", 0, 0x1FFF)
-    st = Style.__new__(Style)
-    st._ansi = None
-    st._style_definition = None
-    st._color = None
-    st._bgcolor = None
-    st._attributes = attrs
-    st._set_attributes = sets
-    st._link = None
-    st._link_id = ""
-    st._hash = 0
-    st._null = False
+    if isinstance(attrs, int) and isinstance(sets, int):
+        # concrete replay: build the style through the public constructor (robust against changes of the representation)
+        st = Style(**{ATTRS[i]: bool(attrs >> i & 1) for i in range(13) if sets >> i & 1})
+    else:
+        st = Style.__new__(Style)
+        st._ansi = None
+        st._style_definition = None
+        st._color = None
+        st._bgcolor = None
+        st._attributes = attrs
+        st._set_attributes = sets
+        st._link = None
+        st._link_id = ""
+        st._hash = 0
+        st._null = False
     out = st.render("x", color_system=ColorSystem.TRUECOLOR)
     codes = ["1", "2", "3", "4", "5", "6", "7", "8", "9", "21", "51", "52", "53"]
     # on this path every bit Style.render looked at is decided: read the effective mask back from the model
